@@ -618,10 +618,11 @@ class BaseShampooPreconditionerList(
 
         """
         if isinstance(inv_root_override, Sequence):
+            # NOTE: A zero entry means "use the default inverse root" for that order, as for the scalar override.
             return tuple(
                 (
                     high_order_default(order)
-                    if order >= len(inv_root_override)
+                    if order >= len(inv_root_override) or inv_root_override[order] == 0
                     else inv_root_override[order]
                 )
                 for order in order_list
